@@ -2,14 +2,16 @@ SPECIFICATION Spec
 CONSTANTS
   MODE = "matrix"
   SEED = 1
-  T1 = 2
+  T1 = 1
   T2 = 1
   T3 = 0
   NS2 = 0
-  NS3 = 6
-  NSBIG = 3
+  NS3 = 4
+  NSBIG = 2
   NCAP = 0
+  HOF = 0
   MAXD = 1
+  MAXDSLOW = 1
   LEN = 1
   MUTANT = FALSE
 INVARIANTS TypeOK Emit Proto
